@@ -136,6 +136,21 @@ class WH(NAHooks):
         self.blas = blas
         self.ip = {}
 
+    def comp_inner(self, a, b):
+        """Inner product of two product-space components: a symbol, with
+        <x, x> = ||x||^2 and <y, x> = conj <x, y>."""
+        if a is b or a.name == b.name:
+            n = Rat.var(satom('norm', a.name))
+            return n * n
+        cplx = a.space.attrs['dtype'].d.kind == 'c'
+        lo, hi = sorted([a.name, b.name])
+        v = Rat.var('ip_%s_%s' % (lo, hi))
+        if cplx:
+            v = v + IU * Rat.var('ipi_%s_%s' % (lo, hi))
+            if a.name != lo:
+                v = PA.conj(v)
+        return v
+
     # ---- element functions with normal forms -------------------------------
     def atom1(self, name):
         if name in ('abs', 'absolute'):
@@ -302,12 +317,7 @@ class WH(NAHooks):
                 return Builtin('norm', lambda: Rat.var(satom(
                     'norm', obj.name)))
             if name == 'inner':
-                def inner(o):
-                    if o is obj or o.name == obj.name:
-                        n = Rat.var(satom('norm', obj.name))
-                        return n * n
-                    return Rat.var('ip_%s_%s' % (obj.name, o.name))
-                return Builtin('inner', inner)
+                return Builtin('inner', lambda o: self.comp_inner(obj, o))
             raise PyRaise('AttributeError')
         if isinstance(obj, PV):
             if name == 'space':
